@@ -166,6 +166,8 @@ theorem c09_at_most_one (c : Cfg) (loc : List Feat) (rem : Nat → List Feat) (o
       intro a b; have := h a b; simp only [step, onServer, binds_unsub] at this ⊢; exact this
     | drop p => exact dropPeer_atMostOne c s h p
     | dropEnt p ent => exact dropEntity_atMostOne c s h p ent
+    | subsPass p ent => intro a b; exact h a b
+    | bindsPass p ent => exact atMostOne_filter s h _ _ rfl
 
 theorem unbindKeep_clean (p cDev : Nat) (cEnt : List Nat) (cFeat : Nat) (sEnt : List Nat) (sFeat : Nat) (e : Entry) :
     unbindKeep Cfg.clean p cDev cEnt cFeat sEnt sFeat e =
